@@ -86,38 +86,6 @@ def step (st : St) (line : String) : St × String :=
     | _, _ => (st, "bad-op")
   | _ => (st, "bad-op")
 
-def outOpt {α} : Out α → Option α
-  | .ok a => some a
-  | _ => none
-
-def outOk : Out Unit → Bool
-  | .ok _ => true
-  | _ => false
-
-/-- the property's conjunction for the kind selected by the code (spec vocabulary: decode id / decode container /
-    stored header / verify), evaluated from the oracle and the C04–C06 / C15 transcriptions -/
-def allowed (st : St) (P : Params) (code : Nat) (input : Bytes) : Option Bytes :=
-  let blk := P.decodeBlock input
-  if code = Lumina.Gen.C15.SAMPLE_ID_MULTIHASH_CODE then
-    Lumina.Spec.C10.allows blk (fun b => (Cid.read b).bind (fun c => (SampleId.ofCid c).toOption))
-      (fun id => mhBytes id.toCid) (fun id => id.row.eds.height)
-      (fun id b => (P.decodeSample b).bind (fun raw => outOpt (sampleFromRaw id.row.index id.column raw)))
-      (storeOf st) (fun s id dah => outOk (sampleVerify sha s id.row.index id.column dah))
-  else if code = Lumina.Gen.C15.ROW_ID_MULTIHASH_CODE then
-    Lumina.Spec.C10.allows blk (fun b => (Cid.read b).bind (fun c => (RowId.ofCid c).toOption))
-      (fun id => mhBytes id.toCid) (fun id => id.eds.height)
-      (fun id b => (P.decodeRow b).bind (fun raw => outOpt (rowFromRaw P.codec id.index raw)))
-      (storeOf st) (fun r id dah => outOk (rowVerify sha r id.index dah))
-  else
-    Lumina.Spec.C10.allows blk (fun b => (Cid.read b).bind (fun c => (RowNamespaceDataId.ofCid c).toOption))
-      (fun id => mhBytes id.toCid) (fun id => id.row.eds.height)
-      (fun id b => (P.decodeRnd b).bind (fun raw => outOpt (rndFromRaw id.ns raw)))
-      (storeOf st) (fun d id dah => outOk (rndVerify sha d id.ns id.row.index dah))
-
-def knownCode (code : Nat) : Bool :=
-  code = Lumina.Gen.C15.SAMPLE_ID_MULTIHASH_CODE || code = Lumina.Gen.C15.ROW_ID_MULTIHASH_CODE ||
-  code = Lumina.Gen.C15.ROW_NAMESPACE_DATA_ID_MULTIHASH_CODE
-
 def parseObs (os : List String) : Option Lumina.Spec.C10.Obs :=
   match os with
   | ["ok", h] => (fromHex h).map .hash
@@ -134,7 +102,7 @@ def spec (st : St) (op : String) (obs : String) : String :=
     match natArg? ws "code", hexArg? ws "input", parseObs os with
     | some code, some input, some o =>
       if o == .panic then "specfail C10/hash-panic the multihasher panicked instead of reporting an error"
-      else if Lumina.Spec.C10.specHash (knownCode code) (allowed st (paramsOf ws) code input) o then "specok"
+      else if Lumina.Spec.C10.specHash (knownCode code) (allowed sha (paramsOf ws) (storeOf st) code input) o then "specok"
       else
         match o with
         | .hash _ => "specfail C10/hash-yielded-without-verification a hash was yielded although id/container/header/verification does not hold (or it is not the id hash)"
